@@ -5,3 +5,4 @@ pub mod c11;
 pub mod c12;
 pub mod c13;
 pub mod c03;
+pub mod c14;
